@@ -82,16 +82,35 @@ def run(chk):
     n_cases = 120 if quick else 1500
     for case in range(n_cases):
         g.new_expression(False)
-        n_t = r.choice([0, 1, 2, 2, 4, 4])
+        n_t = r.choice([0, 1, 2, 2, 4, 4, 3, 3])
+        cyclic = False
         if n_t == 4:
             targets = [("i", ""), ("j", ""), ("a", ""), ("b", "")]
+        elif n_t == 3:
+            # three targets of one space: terms related by cyclic (non
+            # commuting) products of transpositions
+            targets = r.choice([[("i", ""), ("j", ""), ("k", "")],
+                                [("a", ""), ("b", ""), ("c", "")]])
+            cyclic = True
         else:
             targets = g.targets(n=n_t)
         same = [(x, y) for x in targets for y in targets
                 if x < y and gen.idx_space(x[0]) == gen.idx_space(y[0])]
         pairs = [r.choice(same)] if same and r.random() < 0.5 else []
         try:
-            total = make_expr(g, r, targets, pairs)
+            if cyclic:
+                base = gen.build_term(g.term(targets, kinds="NNA", n_obj=r.choice([2, 3]),
+                                             trace_prob=0.0))
+                s1, s2, s3 = [gen.sym_of(t) for t in targets]
+                cyc = {s1: s2, s2: s3, s3: s1}
+                once = base.subs(cyc, simultaneous=True)
+                twice = once.subs(cyc, simultaneous=True)
+                total = base + r.choice([1, -1]) * once
+                if r.random() < 0.4:
+                    total += r.choice([1, -1]) * twice
+                pairs = []
+            else:
+                total = make_expr(g, r, targets, pairs)
         except RuntimeError:
             continue
         if total == 0:
